@@ -60,6 +60,9 @@ func (c17) Exec(seed int64, i int, tier string) Record {
 		// must be the outcome with the name `a` (same kind; syntax errors at the shifted position). The grammar models are not asked.
 		return c17HugeCase(r)
 	}
+	if i >= 12000 && i%50 == 21 {
+		return c17HistoryCase(r) // class registry-history (b14_helpers.go): function names resolve against THIS call's Config
+	}
 	enum := c02Enum()
 	var s, gen string
 	// a slice of the bounded-exhaustive reduced grammar first, then random strings
